@@ -292,4 +292,224 @@ theorem applyRelevant_pfr (c : Ctx) (s s' : Store) (ready : List Wid) (bm : Bloc
       obtain ⟨c1, h1⟩ := relevantFold_pfr c.p c.own bm recs _ r hr hno hnd hk hsame
       exact ⟨c1.trans (pfr_of_eq _ rfl rfl), h1⟩
 
+-- ------------------------------------------------------------------ filterTx: the relevant outputs (any ready set)
+
+/-- an output of `t` pays a managed address of a READY wallet -/
+def PaysReady (own : Own) (ready : List Wid) (t : Tx) : Prop :=
+  ∃ (j : Nat) (o : Out) (w' : Wid) (ch : Bool),
+    t.outs[j]? = some o ∧ o.cls ≠ .raw ∧ AMap.get own o.addr = some (w', ch) ∧ ready.contains w' = true
+
+theorem filterOut_relOut_ne (c : Ctx) (ready : List Wid) (tr : TxRec) (cur : Nat) (o : Out) (h : tr.relOut ≠ []) :
+    (filterOut c ready tr cur o).relOut ≠ [] := by
+  unfold filterOut
+  repeat' split
+  all_goals first | exact h | simp
+
+theorem filterOut_hit (c : Ctx) (ready : List Wid) (tr : TxRec) (cur : Nat) (o : Out) (w' : Wid) (ch : Bool)
+    (h1 : o.cls ≠ .raw) (h2 : AMap.get c.own o.addr = some (w', ch)) (h3 : ready.contains w' = true) :
+    (filterOut c ready tr cur o).relOut ≠ [] := by
+  unfold filterOut
+  rw [if_neg h1]
+  simp only [h2, h3, if_true]
+  simp
+
+theorem filterOuts_hit (c : Ctx) (ready : List Wid) : ∀ (os : List Out) (n : Nat) (tr : TxRec) (j : Nat) (o : Out)
+    (w' : Wid) (ch : Bool), os[j]? = some o → o.cls ≠ .raw → AMap.get c.own o.addr = some (w', ch) →
+    ready.contains w' = true → (foldIdx (filterOut c ready) os n tr).relOut ≠ [] := by
+  intro os
+  induction os with
+  | nil => intro n tr j o w' ch h; simp at h
+  | cons x os ih =>
+    intro n tr j o w' ch hj h1 h2 h3
+    rw [show foldIdx (filterOut c ready) (x :: os) n tr = foldIdx (filterOut c ready) os (n + 1) (filterOut c ready tr n x)
+      from rfl]
+    cases j with
+    | zero =>
+      simp only [List.getElem?_cons_zero, Option.some.injEq] at hj
+      subst hj
+      exact foldIdx_inv (fun (a : TxRec) => a.relOut ≠ []) _ _ _ _ (filterOut_hit c ready tr n x w' ch h1 h2 h3)
+        (fun a i y ha => filterOut_relOut_ne c ready a i y ha)
+    | succ j =>
+      simp only [List.getElem?_cons_succ] at hj
+      exact ih (n + 1) _ j o w' ch hj h1 h2 h3
+
+/-- what a relevant-output record says -/
+def RelOK (own : Own) (ready : List Wid) (os : List Out) (rel : Rel) : Prop :=
+  os[rel.index]? = some rel.out ∧ rel.out.cls ≠ .raw ∧ AMap.get own rel.out.addr = some (rel.wallet, rel.change) ∧
+    ready.contains rel.wallet = true
+
+theorem filterOuts_mem (c : Ctx) (ready : List Wid) : ∀ (os : List Out) (n : Nat) (tr : TxRec) (rel : Rel),
+    rel ∈ (foldIdx (filterOut c ready) os n tr).relOut → rel ∈ tr.relOut ∨
+      ∃ j, rel.index = n + j ∧ os[j]? = some rel.out ∧ rel.out.cls ≠ .raw ∧
+        AMap.get c.own rel.out.addr = some (rel.wallet, rel.change) ∧ ready.contains rel.wallet = true := by
+  intro os
+  induction os with
+  | nil => intro n tr rel h; exact Or.inl h
+  | cons x os ih =>
+    intro n tr rel h
+    rw [show foldIdx (filterOut c ready) (x :: os) n tr = foldIdx (filterOut c ready) os (n + 1) (filterOut c ready tr n x)
+      from rfl] at h
+    rcases ih (n + 1) _ rel h with h1 | ⟨j, e1, e2, e3, e4, e5⟩
+    · unfold filterOut at h1
+      split at h1
+      · exact Or.inl h1
+      · rename_i hraw
+        split at h1
+        · rename_i w ch hown
+          split at h1
+          · rename_i hr
+            rcases List.mem_append.1 h1 with h1 | h1
+            · exact Or.inl h1
+            · rw [List.mem_singleton] at h1
+              subst h1
+              exact Or.inr ⟨0, rfl, rfl, hraw, hown, hr⟩
+          · exact Or.inl h1
+        · exact Or.inl h1
+    · exact Or.inr ⟨j + 1, by omega, by simpa using e2, e3, e4, e5⟩
+
+/-- filterTx on a transaction that pays a ready wallet finds it relevant -/
+theorem filterTxRel_some_of_pays (c : Ctx) (s : Store) (tx : Tx) (mined : Bool) (inBlk : List Tx) (ready : List Wid)
+    (r : Option TxRec) (h : filterTxRel c s tx mined inBlk ready = .ok r) (hp : PaysReady c.own ready tx) :
+    ∃ tr, r = some tr := by
+  obtain ⟨j, o, w', ch, hj, h1, h2, h3⟩ := hp
+  rw [MW.Lemmas.Ledger.filterTxRel_eq] at h
+  simp only [bind, Except.bind] at h
+  split at h
+  · cases h
+  · rename_i tr1 _
+    have hne := filterOuts_hit c ready tx.outs 0 tr1 j o w' ch hj h1 h2 h3
+    have hemp : (foldIdx (filterOut c ready) tx.outs 0 tr1).relOut.isEmpty = false := by
+      cases hh : (foldIdx (filterOut c ready) tx.outs 0 tr1).relOut with
+      | nil => exact absurd hh hne
+      | cons _ _ => rfl
+    rw [hemp, Bool.and_false] at h
+    simp only [Bool.false_eq_true, if_false] at h
+    split at h
+    · cases h
+    · cases h; exact ⟨_, rfl⟩
+
+/-- the relevant outputs of a record found by filterTx: existing outputs paying managed addresses of ready wallets -/
+theorem filterTxRel_relOK (c : Ctx) (s : Store) (tx : Tx) (mined : Bool) (inBlk : List Tx) (ready : List Wid)
+    (tr : TxRec) (h : filterTxRel c s tx mined inBlk ready = .ok (some tr)) :
+    ∀ rel ∈ tr.relOut, RelOK c.own ready tx.outs rel := by
+  rw [MW.Lemmas.Ledger.filterTxRel_eq] at h
+  simp only [bind, Except.bind] at h
+  split at h
+  · cases h
+  · rename_i tr1 h1
+    have e1 : tr1.relOut = [] := by
+      split at h1
+      · cases h1; rfl
+      · exact foldIdxM_ok_inv (fun _ (a : TxRec) => a.relOut = []) _ _ _ _ _ rfl
+          (fun a i x b' ha hf => (filterIn_relOut c s mined inBlk ready a b' i x hf).trans ha) h1
+    have hm : ∀ rel ∈ (foldIdx (filterOut c ready) tx.outs 0 tr1).relOut, RelOK c.own ready tx.outs rel := by
+      intro rel hrel
+      rcases filterOuts_mem c ready tx.outs 0 tr1 rel hrel with h0 | ⟨j, e, e2, e3, e4, e5⟩
+      · rw [e1] at h0; cases h0
+      · refine ⟨?_, e3, e4, e5⟩
+        rw [e, Nat.zero_add]; exact e2
+    split at h
+    · cases h
+    · split at h
+      · cases h
+      · cases h; exact hm
+
+/-- the first loop of filterBlock finds every transaction of the block that pays a ready wallet -/
+theorem filterTxs_hit (c : Ctx) (s : Store) (ready : List Wid) (bid : BlkId) :
+    ∀ (post seen : List Tx) (ti : Nat) (acc r : List TxRec),
+      filterTxs c s ready bid post seen ti acc = .ok r →
+      ∀ u ∈ post, PaysReady c.own ready u → ∃ tr ∈ r, tr.tx = u := by
+  intro post
+  induction post with
+  | nil => intro seen ti acc r _ u hu; cases hu
+  | cons tx rest ih =>
+    intro seen ti acc r h u hu hp
+    simp only [filterTxs, bind, Except.bind] at h
+    cases hx : filterTxRel c s tx true (seen ++ [tx]) ready with
+    | error e => rw [hx] at h; cases h
+    | ok o =>
+      rw [hx] at h
+      rcases List.mem_cons.1 hu with rfl | hu'
+      · obtain ⟨tr, rfl⟩ := filterTxRel_some_of_pays c s u true _ ready o hx hp
+        simp only at h
+        obtain ⟨recs, h1, _⟩ := filterTxs_sublist c s ready bid rest _ _ _ r h
+        refine ⟨{ tr with loc := (bid, ti) }, ?_, filterTxRel_tx c s u true _ ready tr hx⟩
+        rw [h1]; simp
+      · cases o with
+        | none => exact ih _ _ _ _ h u hu' hp
+        | some tr => exact ih _ _ _ _ h u hu' hp
+
+-- ------------------------------------------------------------------ CONNECTING A BLOCK (any ready set)
+
+/-- filterBlock is a frame of the pending side, and no transaction of the block that pays a ready wallet is pending
+    afterwards -/
+theorem filterBlock_pfr (c : Ctx) (s s' : Store) (ready : List Wid) (b : Block) (conf : List TxId)
+    (h : filterBlock c s ready b = .ok (s', conf))
+    (hnorec : ∀ u ∈ b.txs, AMap.get s.txrecs (u.id, ⟨b.height, b.id⟩) = none)
+    (hbnd : (b.txs.map (·.id)).Nodup) (hk : KeyId s)
+    (hsame : ∀ u ∈ b.txs, ∀ t, AMap.get s.pending u.id = some t → t = u) :
+    PFr s s' ∧ ∀ u ∈ b.txs, PaysReady c.own ready u → AMap.get s'.pending u.id = none := by
+  unfold filterBlock at h
+  simp only [throw, throwThe, MonadExceptOf.throw] at h
+  split at h
+  · cases h
+  · split at h
+    · cases h
+    · cases hne : ready.isEmpty with
+      | true =>
+        have hr : ready = [] := List.isEmpty_iff.1 hne
+        simp only [hne, if_true, bind, Except.bind, pure, Except.pure, applyRelevant, List.isEmpty_nil] at h
+        cases hp : putSyncedTo (purgeUnrelated c.own s []) ⟨b.height, b.id⟩ with
+        | error e => rw [hp] at h; cases h
+        | ok s2 =>
+          rw [hp] at h
+          simp only [Except.ok.injEq, Prod.mk.injEq] at h
+          obtain ⟨hs2, _⟩ := h
+          subst hs2
+          obtain ⟨q1, q2, _⟩ := putSyncedTo_cred _ _ _ hp
+          refine ⟨pfr_of_eq _ q1 q2, ?_⟩
+          rintro u _ ⟨_, _, w', _, _, _, _, h3⟩
+          rw [hr] at h3; cases h3
+      | false =>
+        simp only [hne, Bool.false_eq_true, if_false, bind, Except.bind] at h
+        cases hf : filterTxs c s ready b.id b.txs [] 0 [] with
+        | error e => rw [hf] at h; cases h
+        | ok recs =>
+          rw [hf] at h
+          simp only at h
+          obtain ⟨recs', hr, hsub⟩ := filterTxs_sublist c s ready b.id b.txs [] 0 [] recs hf
+          rw [List.nil_append] at hr
+          subst hr
+          cases ha : applyRelevant c s ready ⟨b.height, b.id⟩ recs with
+          | error e => rw [ha] at h; cases h
+          | ok s1 =>
+            rw [ha] at h
+            simp only at h
+            cases hp : putSyncedTo (purgeUnrelated c.own s1 (unrelatedTxs b.txs recs)) ⟨b.height, b.id⟩ with
+            | error e => rw [hp] at h; cases h
+            | ok s2 =>
+              rw [hp] at h
+              simp only [pure, Except.pure, Except.ok.injEq, Prod.mk.injEq] at h
+              obtain ⟨hs2, _⟩ := h
+              subst hs2
+              have hrecb : ∀ tr ∈ recs, tr.tx ∈ b.txs := fun tr htr => hsub.subset (List.mem_map.2 ⟨tr, htr, rfl⟩)
+              have hnd : (recs.map (·.tx.id)).Nodup := by
+                have : recs.map (·.tx.id) = (recs.map (·.tx)).map (·.id) := by rw [List.map_map]; rfl
+                rw [this]
+                exact (hsub.map (·.id)).nodup hbnd
+              have hno : ∀ tr ∈ recs, AMap.get s.txrecs (tr.tx.id, ⟨b.height, b.id⟩) = none :=
+                fun tr htr => hnorec tr.tx (hrecb tr htr)
+              obtain ⟨c1, hg1⟩ := applyRelevant_pfr c s s1 ready _ recs ha hno hnd hk
+                (fun tr htr => hsame tr.tx (hrecb tr htr))
+              have c2 : PFr s1 (purgeUnrelated c.own s1 (unrelatedTxs b.txs recs)) :=
+                PFrX.of_cfrx (purgeUnrelated_cfr c.own (unrelatedTxs b.txs recs) s1 (c1.keyId hk))
+                  (purgeUnrelated_sc c.own _ s1)
+              obtain ⟨q1, q2, _⟩ := putSyncedTo_cred _ _ _ hp
+              have c3 : PFr (purgeUnrelated c.own s1 (unrelatedTxs b.txs recs)) s2 := pfr_of_eq _ q1 q2
+              refine ⟨c1.trans (c2.trans c3), ?_⟩
+              intro u hu hpay
+              obtain ⟨tr, htr, he⟩ := filterTxs_hit c s ready b.id b.txs [] 0 [] recs hf u hu hpay
+              have := (c2.trans c3).pend_none (hg1 tr htr)
+              rw [he] at this; exact this
+
 end MW.Lemmas.RemovePend
